@@ -69,7 +69,8 @@ def denoteInstr (p : RefProg) : Nat → List (Option Val) → Val → Instr → 
     | .cutoff _ _ => none
     | .expert _ => none
     | .publish _ _ => none
-    | .scopedVar v => some v
+    -- a scoped variable may have been written since its closure ran: not determined by the program text
+    | .scopedVar _ => none
     | .memoCall _ _ => none
     | .mapOp _ => none
     | .perKey _ _ _ => none
